@@ -161,9 +161,22 @@ theorem invoke_readOnly (h1 : cfg.listDry = true) (h2 : cfg.dryMkdir = false) (h
 
 theorem invoke_run {i : Nat} {t : Task} (h : pr.tasks[i]? = some t) (e : Env) (s : State) :
     invoke cfg H pr i .run e s =
+      if ((isUpToDate H pr t false e.now s).2 && !interrupted t e) = true then ((isUpToDate H pr t false e.now s).1, ⟨.ok, true, [], []⟩)
+      else runBody cfg H pr i t false e (isUpToDate H pr t false e.now s).1 := by
+  simp only [invoke, h]
+
+theorem and_left_true {a b : Bool} (h : (a && b) = true) : a = true := by
+  cases a <;> simp_all
+
+theorem and_false_of_left {a b : Bool} (h : a = false) : (a && b) = false := by
+  simp [h]
+
+/-- a run that is not cancelled by a sibling: the verdict of the check alone decides -/
+theorem invoke_run_plain {i : Nat} {t : Task} (h : pr.tasks[i]? = some t) (e : Env) (hc : e.cancelled = false) (s : State) :
+    invoke cfg H pr i .run e s =
       if (isUpToDate H pr t false e.now s).2 then ((isUpToDate H pr t false e.now s).1, ⟨.ok, true, [], []⟩)
       else runBody cfg H pr i t false e (isUpToDate H pr t false e.now s).1 := by
-  simp [invoke, h]
+  simp [invoke, h, interrupted, hc]
 
 theorem invoke_force {i : Nat} {t : Task} (h : pr.tasks[i]? = some t) (e : Env) (s : State) :
     invoke cfg H pr i .force e s = runBody cfg H pr i t false e s := by
@@ -234,14 +247,14 @@ theorem runBody_ok (i : Nat) (t : Task) (e : Env) (s : State)
     · rename_i hl; simp [hl] at h
     · rename_i hl; simp [hl] at h
 
-theorem cmdLoop_clean (e : Env) (hk : e.killAt = none) (hf : e.failAt = none) (cs : List Cmd)
+theorem cmdLoop_clean (e : Env) (hk : e.killAt = none) (hf : e.failAt = none) (hcan : e.cancelled = false) (cs : List Cmd)
     (hn : ∀ c ∈ cs, c.need = none) (k : Nat) (fs : FS) (ran : List Nat) :
     (cmdLoop e cs k fs ran).2.1 = ran ++ List.range' k cs.length ∧ (cmdLoop e cs k fs ran).2.2 = .done := by
   induction cs generalizing k fs ran with
   | nil => simp [cmdLoop]
   | cons c cs ih =>
     have hc : c.blocked fs = false := by simp [Cmd.blocked, hn c (by simp)]
-    simp only [cmdLoop, hk, hf, hc]
+    simp only [cmdLoop, hk, hf, hc, hcan]
     have := ih (fun x hx => hn x (by simp [hx])) (k + 1) (applyWrites fs c.writes e.now) (ran ++ [k])
     simp only [reduceCtorEq, if_false]
     rw [this.1, this.2]
